@@ -225,6 +225,7 @@ func (fx *Facts) atomPaths(fn *ssa.Function, max int) ([]APath, bool) {
 		for _, c := range p.Conds {
 			ap.Atoms = append(ap.Atoms, fx.atomOf(c.Cond, c.Pol))
 		}
+		ap.Atoms = fx.expandAtoms(ap.Atoms)
 		out = append(out, ap)
 	}
 	return out, true
@@ -319,6 +320,7 @@ func (fx *Facts) atomPathsTo(target *ssa.BasicBlock, max int) ([]APath, bool) {
 				for _, c := range p.Conds {
 					ap.Atoms = append(ap.Atoms, fx.atomOf(c.Cond, c.Pol))
 				}
+				ap.Atoms = fx.expandAtoms(ap.Atoms)
 				out = append(out, ap)
 			}
 			return
